@@ -313,6 +313,14 @@ func (fr *Frame) callContract(bc *BoundContract, args []Val, p token.Pos) []Val 
 	}
 	old := fr.st.clone()
 	vars := bc.bindParams(args)
+	// a bound method value passed as argument: its receiver is visible to the contract as <param>_recv
+	for k, v := range vars {
+		if v.fn != nil && v.fn.fn != nil && len(v.fn.bindings) == 1 && len(v.fn.fn.FreeVars) == 1 {
+			rv := v.fn.bindings[0]
+			rv.typ = v.fn.fn.FreeVars[0].Type()
+			vars[k+"_recv"] = rv
+		}
+	}
 	pkg := fr.eng().typesPackage(c.PkgPath)
 	env := &SpecEnv{cx: fr.cx, pkg: pkg, vars: vars, cur: fr.st, old: old}
 	// call-site conditions demanded by the contract of the function under verification
@@ -459,11 +467,33 @@ func (fr *Frame) callContract(bc *BoundContract, args []Val, p token.Pos) []Val 
 		applyGhostSet(fr.cx, env2, sc, fr.st)
 	}
 	for _, en := range c.Ensures {
+		if strings.Contains(en.Text, "ret(") || strings.Contains(en.Text, "called(") || strings.Contains(en.Text, "iter(") {
+			continue // speaks about calls made inside the callee: not expressible at the call site (assuming less is sound)
+		}
 		if en.Assumed {
 			fr.cx.trust(fmt.Sprintf("assumed postcondition of %s: %s", bc.Short(), en.Text))
 		}
 		if g := fr.evalClause(env2, en); g != nil {
 			fr.assume(g)
+		}
+	}
+	// rely conditions of the function under verification (what other threads guarantee when this call returns)
+	if top := fr.cx.bc; top != nil && top.C.Rely != nil {
+		cname := c.Sig.Name.Name
+		for _, rcl := range top.C.Rely[cname] {
+			tvars := map[string]Val{}
+			for k, v := range fr.cx.topVars {
+				tvars[k] = v
+			}
+			root := fr
+			for root.parent != nil {
+				root = root.parent
+			}
+			tenv := &SpecEnv{cx: fr.cx, pkg: fr.eng().typesPackage(top.C.PkgPath), vars: tvars, cur: fr.st, old: root.entry, rets: root.lastRets, retNames: root.lastRetNames, called: root.lastCalled}
+			if g := fr.evalClause(tenv, rcl); g != nil {
+				fr.assume(g)
+				fr.cx.trust(fmt.Sprintf("rely (monitor rule) in %s: after %s returns, %s", shortName(top.Name()), cname, rcl.Text))
+			}
 		}
 	}
 	_ = b
